@@ -19,8 +19,8 @@ from sismic.interpreter import Interpreter
 from sismic.model import Statechart, CompoundState, BasicState, FinalState, Transition, Event
 
 BOUNDS = {
-    'quick': {'D1': 2, 'D2': 1, 'D3': 2, 'D4': 3, 'D5': 2, 'D6': 2, 'D7': 2, 'D8': 3, 'D9': 2},
-    'thorough': {'D1': 3, 'D2': 2, 'D3': 3, 'D4': 4, 'D5': 3, 'D6': 3, 'D7': 3, 'D8': 4, 'D9': 3},
+    'quick': {'D1': 2, 'D2': 1, 'D3': 2, 'D4': 3, 'D5': 2, 'D6': 2, 'D7': 2, 'D8': 3, 'D9': 2, 'D10': 2, 'D11': 2},
+    'thorough': {'D1': 3, 'D2': 2, 'D3': 3, 'D4': 4, 'D5': 3, 'D6': 3, 'D7': 3, 'D8': 4, 'D9': 3, 'D10': 3, 'D11': 3},
 }
 _CUR = [None]
 
@@ -229,9 +229,41 @@ def D9(w):
     return [client], {'drain': []}
 
 
-DRIVERS = {'D9': D9, 'D1': D1, 'D2': D2, 'D3': D3, 'D4': D4, 'D5': D5, 'D6': D6, 'D7': D7, 'D8': D8}
+def D10(w):
+    # a delayed event becomes due when the clock moves; the client queues another event right then
+    w.it.queue(Event('d', s=1, delay=5))
+    w.queued.append(1)
+
+    def client():
+        w.op('start')
+        w.it.clock.time += 5
+        w.ex.note('clock+5')
+        w.queue('e', 2)
+        w.await_consumed(2)
+        w.op('stop')
+    return [client], {'drain': [1, 2], 'delayed': [1]}
+
+
+def D11(w):
+    # a second start() is refused; it must not un-pause a paused runner
+    def client():
+        w.op('start')
+        w.op('pause')
+        w.ex.note('start2:call')
+        try:
+            w.runner.start()
+            w.ex.note('start2:accepted')
+        except RuntimeError:
+            w.ex.note('start2:refused')
+        w.queue('e', 1)
+        w.ex.point('client-idle')
+        w.op('stop')
+    return [client], {'drain': []}
+
+
+DRIVERS = {'D9': D9, 'D10': D10, 'D11': D11, 'D1': D1, 'D2': D2, 'D3': D3, 'D4': D4, 'D5': D5, 'D6': D6, 'D7': D7, 'D8': D8}
 EXECUTE_ALL = {'D5', 'D7'}
-PREINIT = {'D2', 'D3', 'D9'}
+PREINIT = {'D2', 'D3', 'D9', 'D10', 'D11'}
 
 
 def run_one(dname, prefix):
